@@ -48,6 +48,9 @@ def compare(rep, exe, plans, label="expand"):
             continue
         rep.count(label + ":compared")
         for fi, (fam, mv) in enumerate(zip(d.families, v[1])):
+            if len(mv) > 4:
+                rep.count(label + ":expandWF=" + str(mv[3]))
+                rep.count(label + ":wildcardsFixed=" + str(mv[4]))
             # helper trait (trait mode)
             if mv[0][0] == "unmodelled":
                 rep.count(label + ":helper-trait-unmodelled")
